@@ -220,7 +220,7 @@ class Kit:
     def call(self, fn: Callable, *args, modifies: Sequence[torch.Tensor] = (), protect: Sequence = (), **kwargs):
         """Run the real function.  Frame: every tensor reachable from the arguments (and ``protect``) is
         read-only unless listed in ``modifies``."""
-        name = getattr(fn, "__qualname__", getattr(fn, "__name__", str(fn)))
+        name = getattr(fn, "__qualname__", None) or getattr(fn, "__name__", None) or type(fn).__name__  # never repr(fn)
         self.calls.append(name)
         snap = None
         bound = getattr(fn, "__self__", None)
@@ -424,6 +424,7 @@ def _reachable_tensors(objs, acc=None, seen=None, what="arg", depth=0):
 def discharge(ob: Ob, run: explore.Run, kit: Kit, timeout_s: float, n_random: int = 6, cheap_only: bool = False):
     t0 = time.time()
     goal = ob.goal
+    run.ring.deadline = t0 + (6.0 if timeout_s <= 10 else 40.0)
     if goal.op == "bconst":
         if goal.args[0]:
             ob.status, ob.backend = "proved", "trivial"
@@ -479,6 +480,10 @@ def discharge(ob: Ob, run: explore.Run, kit: Kit, timeout_s: float, n_random: in
         ob.status, ob.backend, ob.time = "skipped", "none", time.time() - t0
         return
     # 3. SMT
+    if "TooBig" in ob.detail and timeout_s <= 10:
+        ob.status, ob.backend, ob.time = "unknown", "ring", time.time() - t0
+        ob.detail += " (expression too large for the quick tier)"
+        return
     try:
         r = smt.prove(ob.hyps, goal, timeout_s=timeout_s)
     except Unsupported as ex:
